@@ -299,6 +299,21 @@ func (p *provider) findDescriptor(serviceType reflect.Type, key any) *Descriptor
 	return p.services[typeKey]
 }
 
+// isRegistered reports whether this very descriptor is (still) part of the registry the
+// provider was built from.
+func (p *provider) isRegistered(descriptor *Descriptor) bool {
+	if descriptor.Group != "" {
+		for _, member := range p.groups[GroupKey{Type: descriptor.Type, Group: descriptor.Group}] {
+			if member == descriptor {
+				return true
+			}
+		}
+		return false
+	}
+
+	return p.services[TypeKey{Type: descriptor.Type, Key: descriptor.Key}] == descriptor
+}
+
 // findGroupDescriptors finds all descriptors for a specific type within a group.
 // Returns an empty slice if the type is nil, group is empty, or no services are found.
 func (p *provider) findGroupDescriptors(serviceType reflect.Type, group string) []*Descriptor {
